@@ -16,6 +16,40 @@ Kernels: straight-line functions in the fragment
     SingleInterval(...) construction (with the constructor's own check), EmptyLocation(), `x in/not in [..]`
 are compiled to total Lean definitions over Int / Base enums returning `Except PyExc _`.
 Anything outside the fragment is an error for THAT kernel only (it is then tied by the correspondence alone).
+
+Loop fragment (kernel specs with `loops=True`; the block loops of CompoundInterval, parent-less view `CI`):
+    * `for x in <list expr>:` / `for a, b in zip(xs, ys):` over a list-typed expression is compiled to a separate,
+      structurally recursive definition `<kernel>_loop<i>` emitted before the kernel.  Its explicit arguments are the
+      locals read in the body (fixed), the list, and the STATE = the locals assigned in the body that exist before
+      the loop (in order of first assignment).  It returns `PyR (LoopOut Ret State)`:
+          `return e` -> `.ok (.ret e)`;  `break` -> `.ok (.done state)`;  list exhausted -> `.ok (.done state)`;
+          `continue` / end of the body -> the recursive call on the tail with the current state;  `raise X` -> `.error X`.
+      The caller matches on the result: `.ret r` returns r from the kernel, `.done state` continues after the loop.
+      Refused: `for ... else`, nested loops, reassigning the loop variable, a state variable changing its type,
+      use of a body-local or of the loop variable after the loop.
+    * `try: S1; S... except X: H` (one handler, no `as`, no else/finally): S1 must be an assignment whose value contains
+      exactly ONE kernel call; `.error X'` for X' = X or a subclass of X in exc.py takes H (with the locals as they
+      were before S1), other errors propagate, `.ok` continues with S...; the statements S... must be unable to raise
+      (no kernel call, no raise) — otherwise the kernel is refused.
+    * list values: `self.blocks` / `self._single_intervals` (List SI), `self._starts` / `self._ends` (List Int),
+      `reversed(xs)` -> `xs.reverse`, `iter(xs)` -> `xs`, `zip(xs, ys)` -> `List.zip xs ys`,
+      `islice(xs, k, None)` -> `xs.drop k`, `xs.append(e)` -> `xs ++ [e]`, `x = []` (element type from the spec's
+      `locals`), `any(<elt> for <target> in <list>)` -> `List.any` (pure element) or the short-circuiting `pyAny`
+      (element is a kernel call), `len(self)` / `self.length` of a CI -> `CI.length`.
+    * generators (`generator=True`): `yield from <list>` appends to the result list, which is returned at the end.
+    * `if c: <plain assignments> else: <plain assignments>` to the same names, none of which occurs in c or in an
+      assigned value, becomes one `let v := if c then a else b` per name (no duplication of the continuation).
+    * lazily cached attribute: `if self.A is None: self.A = E` followed by `return self.A` is `return E`, provided
+      every other store to `self.A` in the class is `self.A = None` inside `__init__`.
+    * `fixed={param: False}`: a trailing parameter pinned to its DEFAULT value (checked against the signature); tests
+      on it are decided statically.  `si_has_overlap_view`: `b.has_overlap(other, <False>, full_span=False)` on a
+      SingleInterval `b` with a SingleInterval argument is `SingleInterval_has_overlap_single_interval b other`
+      (parent-less operands, match_strand=False: the preceding tests of SingleInterval.has_overlap are all False).
+    * `cut`: the kernel stops before the first statement that calls the named function and returns the named locals
+      (the remainder is pinned textually in `<kernel>_tail`).
+    * the CI view itself is guarded: `blocks`, `_single_intervals`, `num_blocks`, `__len__` and the assignments of
+      `_starts/_ends/strand/length` in `CompoundInterval.__init__` must read as they do in the pinned tree
+      (`ci_view_guards`), otherwise every CompoundInterval kernel is refused.
 """
 import ast
 import json
@@ -25,6 +59,17 @@ import sys
 
 class Unsupported(Exception):
     pass
+
+
+# Lean keywords that may occur as Python local names (none occurs in the straight-line kernels)
+LEAN_KEYWORDS = {"end", "from", "at", "in", "do", "then", "else", "fun", "let", "have", "show", "by", "match", "with",
+                 "open", "where", "if", "for", "return", "mut", "def", "theorem", "example", "instance", "structure",
+                 "inductive", "namespace", "section", "variable", "universe", "import", "export", "private",
+                 "protected", "macro", "syntax", "notation", "deriving", "using", "calc", "Type", "Prop", "Sort"}
+
+
+def lname(n):
+    return f"«{n}»" if n in LEAN_KEYWORDS else n
 
 
 # ------------------------------------------------------------------------------------------------
@@ -390,7 +435,7 @@ PYEXC = {"InvalidPositionException", "InvalidStrandException", "ValueError", "Ty
          "MismatchedFrameException", "InvalidCDSIntervalError"}
 LEAN_TYPE = {"Int": "Int", "Bool": "Bool", "Strand": "Strand", "CDSFrame": "CDSFrame", "CDSPhase": "CDSPhase",
              "SI": "SI", "OptSI": "Option SI", "Sym": "List Char", "Bins": "BinsResult", "VI": "VI",
-             "CoordFmt": "CoordFmt", "DistanceType": "DistanceType"}
+             "CoordFmt": "CoordFmt", "DistanceType": "DistanceType", "CI": "CI", "RelOut": "RelOut"}
 
 
 # methods of a SingleInterval-typed value that are themselves kernels: attr -> (kernel, argument types, result type).
@@ -401,20 +446,163 @@ SI_METHODS = {
     "reverse_strand": ("SingleInterval_reverse_strand", [], "SI"),
     "extend_absolute": ("SingleInterval_extend_absolute", ["Int", "Int"], "SI"),
     "_distance_to_single_interval": ("SingleInterval_distance_to_single_interval", ["SI", "DistanceType"], "Int"),
+    # block method calls inside the CompoundInterval loops
+    "parent_to_relative_pos": ("SingleInterval_parent_to_relative_pos", ["Int"], "Int"),
+    "relative_to_parent_pos": ("SingleInterval_relative_to_parent_pos", ["Int"], "Int"),
+    "relative_interval_to_parent_location": ("SingleInterval_relative_interval_to_parent_location",
+                                             ["Int", "Int", "Strand"], "SI"),
+    "_has_overlap_single_interval": ("SingleInterval_has_overlap_single_interval", ["SI"], "Bool"),
+}
+# methods of a CompoundInterval-typed value (`CI`) that are themselves kernels
+CI_METHODS = {
+    "scan_blocks": ("CompoundInterval_scan_blocks", [], "List:SI"),
+    "parent_to_relative_pos": ("CompoundInterval_parent_to_relative_pos", ["Int"], "Int"),
+    "relative_to_parent_pos": ("CompoundInterval_relative_to_parent_pos", ["Int"], "Int"),
+}
+# attributes of a CI-typed value: Python attribute -> (Lean projection, type); valid under `ci_view_guards`
+CI_ATTRS = {
+    "strand": ("strand", "Strand"),
+    "blocks": ("blocks", "List:SI"),
+    "_single_intervals": ("blocks", "List:SI"),
+    "_starts": ("starts", "List:Int"),
+    "_ends": ("ends", "List:Int"),
+    "length": ("length", "Int"),
 }
 EMITTED = set()
+
+
+def lean_type(t):
+    """Lean spelling of a translator type (None when the type has no first-class Lean counterpart)."""
+    if t in LEAN_TYPE:
+        return LEAN_TYPE[t]
+    if t.startswith("List:"):
+        e = lean_type(t[5:])
+        return None if e is None else (f"List {e}" if " " not in e or e.startswith("(") else f"List ({e})")
+    if t.startswith("Pair:"):
+        parts = t.split(":")[1:]
+        es = [lean_type(x) for x in parts]
+        return None if (len(parts) != 2 or None in es) else "(" + " × ".join(es) + ")"
+    return None
+
+
+def body_no_doc(fn):
+    b = fn.body
+    if b and isinstance(b[0], ast.Expr) and isinstance(b[0].value, ast.Constant) and isinstance(b[0].value.value, str):
+        b = b[1:]
+    return b
+
+
+def src_of(stmts):
+    """canonical text of a statement list (independent of the Python version's unparse layout)"""
+    return "\n".join(ast.dump(x) for x in stmts)
+
+
+def canon(text):
+    return src_of(ast.parse(text).body)
+
+
+def ci_view_guards(repo):
+    """The hand-written `CI` view (GenPrelude) reads a parent-less CompoundInterval as (blocks, strand) with
+    _starts/_ends = the blocks' starts/ends, len = sum of block lengths.  That reading is only right while the
+    class says so; returns the list of violated expectations (empty = the view is faithful to this source)."""
+    bad = []
+
+    def expect(what, got, want):
+        if got != canon(want):
+            bad.append(f"{what}: the CI view assumes it reads {want!r}")
+
+    try:
+        root = module_of(repo, "__init__.py")
+        expect("AbstractLocation.__len__", src_of(body_no_doc(find_func(find_class(root, "AbstractLocation"), "__len__"))),
+               "return self.length")
+        cls = find_class(module_of(repo, "location/location_impl.py"), "CompoundInterval")
+        expect("CompoundInterval.blocks", src_of(body_no_doc(find_func(cls, "blocks"))), "return self._single_intervals")
+        expect("CompoundInterval.num_blocks", src_of(body_no_doc(find_func(cls, "num_blocks"))), "return len(self._starts)")
+        expect("CompoundInterval._single_intervals", src_of(body_no_doc(find_func(cls, "_single_intervals"))),
+               "if self._single_interval_store is None:\n"
+               "    self._single_interval_store = [SingleInterval(self._starts[i], self._ends[i], self.strand, self.parent) "
+               "for i in range(self.num_blocks)]\nreturn self._single_interval_store")
+        init = find_func(cls, "__init__")
+        top = [ast.dump(x) for x in init.body]
+        for want in ("self.strand = strand", "self._starts, self._ends = self._sort_starts_ends(starts, ends, strand)",
+                     "length = 0", "self.length = length",
+                     "for start, end in zip(self._starts, self._ends):\n    if start < 0:\n"
+                     "        raise InvalidPositionException('Block starts must be non-negative')\n    if start > end:\n"
+                     "        raise InvalidPositionException('Block starts must be less than block ends')\n"
+                     "    length += end - start"):
+            if canon(want) not in top:
+                bad.append(f"CompoundInterval.__init__ has no top-level statement {want!r}")
+        # no other store to the viewed attributes anywhere in the class
+        for fn in cls.body:
+            if not isinstance(fn, ast.FunctionDef):
+                continue
+            for nd in ast.walk(fn):
+                if isinstance(nd, ast.Attribute) and isinstance(nd.ctx, (ast.Store, ast.Del)) \
+                        and isinstance(nd.value, ast.Name) and nd.value.id == "self" \
+                        and nd.attr in ("_starts", "_ends", "strand", "length", "_single_interval_store"):
+                    if fn.name == "__init__" or (fn.name == "_single_intervals" and nd.attr == "_single_interval_store"):
+                        continue
+                    bad.append(f"CompoundInterval.{fn.name} assigns self.{nd.attr}")
+        # the SingleInterval side of the view: start/end/strand/length as the constructor stores them
+        scls = find_class(module_of(repo, "location/location_impl.py"), "SingleInterval")
+        stop = [ast.dump(x) for x in find_func(scls, "__init__").body]
+        for want in ("self.start = start", "self.end = end", "self.strand = strand", "self.length = end - start"):
+            if canon(want) not in stop:
+                bad.append(f"SingleInterval.__init__ has no top-level statement {want!r}")
+    except Exception as e:  # noqa
+        bad.append(f"{type(e).__name__}: {e}")
+    return bad
+
+
+def exc_subclasses(repo):
+    """name -> set of names of its (transitive) subclasses declared in exc.py"""
+    sub = {}
+    try:
+        mod = module_of(repo, "exc.py")
+    except Exception:  # noqa
+        return None
+    parents = {}
+    for node in mod.body:
+        if isinstance(node, ast.ClassDef):
+            parents[node.name] = [b.id for b in node.bases if isinstance(b, ast.Name)]
+    def ancestors(c, seen=()):
+        out = set()
+        for b in parents.get(c, []):
+            if b not in seen:
+                out.add(b)
+                out |= ancestors(b, seen + (c,))
+        return out
+    for c in parents:
+        for a in ancestors(c):
+            sub.setdefault(a, set()).add(c)
+    return sub
+
+
+class _EndTry(ast.stmt):
+    """marker: end of the statements of a `try` body that must be unable to raise"""
+    _fields = ()
 
 
 class K:
     """Compiler state for one kernel."""
 
-    def __init__(self, spec, modconsts):
+    def __init__(self, spec, modconsts, cls=None, excsub=None):
         self.spec = spec
         self.types = dict(spec["args"])
         self.ret = spec["ret"]
         self.consts = modconsts
         self.tmp = 0
         self.opaque = set()
+        # loop fragment
+        self.cls = cls                 # enclosing ClassDef (for the lazily-cached-attribute check)
+        self.excsub = excsub           # exc.py subclass table
+        self.loops = bool(spec.get("loops"))
+        self.fixed = dict(spec.get("fixed", {}))
+        self.aux = []                  # auxiliary definitions (loop functions) emitted before the kernel
+        self.ctx = []                  # stack of enclosing loops
+        self.nloops = 0
+        self.pure = 0                  # > 0: inside the must-not-raise part of a try body
+        self.tail = None               # source text of the statements after the cut
 
     def fresh(self):
         self.tmp += 1
@@ -438,8 +626,10 @@ class K:
                 raise Unsupported("set literal")
             return [], "([" + ", ".join(f"(({v} : Int), ({v} : Int))" for v in vals) + "] : RangeSet)", "RangeSet"
         if isinstance(n, ast.Name):
+            if n.id in self.fixed:
+                return [], ("True" if self.fixed[n.id] else "False"), "Prop"     # parameter pinned to its default
             if n.id in self.types:
-                return [], n.id, self.types[n.id]
+                return [], lname(n.id), self.types[n.id]
             if n.id in self.consts and isinstance(self.consts[n.id], int):
                 return [], f"({self.consts[n.id]} : Int)", "Int"
             raise Unsupported(f"name {n.id}")
@@ -457,6 +647,9 @@ class K:
                     return [], f"{chain[0]}.{fld}", ("Strand" if chain[1] == "strand" else "Int")
                 if t in ("CDSFrame", "CDSPhase", "Strand") and chain[1:] == ["value"]:
                     return [], f"{chain[0]}.value", "Int"
+                if t == "CI" and len(chain) == 2 and chain[1] in CI_ATTRS:
+                    proj, pt = CI_ATTRS[chain[1]]
+                    return [], f"{lname(chain[0])}.{proj}", pt
                 if t == "VI":
                     if chain[1:] == ["chromosome_location", "start"]:
                         return [], f"{chain[0]}.vstart", "Int"
@@ -581,12 +774,34 @@ class K:
                 a = n.args[0]
                 if isinstance(a, ast.Name) and self.types.get(a.id) == "SI":
                     return [], f"({a.id}.«end» - {a.id}.start)", "Int"
+                if isinstance(a, ast.Name) and self.types.get(a.id) == "CI":
+                    return [], f"{lname(a.id)}.length", "Int"
                 ch = attr_chain(a)
                 if ch and self.types.get(ch[0]) == "VI" and ch[1:] == ["sequence"]:
                     return [], f"{ch[0]}.seqLen", "Int"
                 if ch and self.types.get(ch[0]) == "VI" and ch[1:] == ["chromosome_location"]:
                     return [], f"({ch[0]}.vend - {ch[0]}.vstart)", "Int"
                 raise Unsupported(f"len({ast.unparse(a)})")
+            if self.loops and fname in ("reversed", "iter") and len(n.args) == 1 and not n.keywords:
+                b, c, t = self.expr(n.args[0])
+                if not t.startswith("List:"):
+                    raise Unsupported(f"{fname}() of {t}")
+                return b, (f"{c}.reverse" if fname == "reversed" else c), t
+            if self.loops and fname == "zip" and len(n.args) == 2 and not n.keywords:
+                (ba, ca, ta), (bb, cb, tb) = self.expr(n.args[0]), self.expr(n.args[1])
+                if not (ta.startswith("List:") and tb.startswith("List:")) or ":" in ta[5:] or ":" in tb[5:]:
+                    raise Unsupported(f"zip of {ta}, {tb}")
+                return ba + bb, f"(List.zip {ca} {cb})", f"List:Pair:{ta[5:]}:{tb[5:]}"
+            if self.loops and fname == "islice" and len(n.args) == 3 and not n.keywords:
+                b, c, t = self.expr(n.args[0])
+                k = n.args[1].value if isinstance(n.args[1], ast.Constant) else None
+                if not t.startswith("List:") or not isinstance(k, int) or isinstance(k, bool) or k < 0 \
+                        or not (isinstance(n.args[2], ast.Constant) and n.args[2].value is None):
+                    raise Unsupported("islice(xs, k, None) needs a list and a literal k >= 0")
+                return b, f"({c}.drop {k})", t
+            if self.loops and fname == "any" and len(n.args) == 1 and not n.keywords \
+                    and isinstance(n.args[0], ast.GeneratorExp):
+                return self.any_genexp(n.args[0])
             if fname == "SingleInterval":
                 args = [self.expr(a) for a in n.args[:3]]   # a 4th positional argument is the parent (not modelled)
                 if len(args) != 3 or [a[2] for a in args] != ["Int", "Int", "Strand"]:
@@ -616,6 +831,30 @@ class K:
                         raise Unsupported("Strand_reverse not generated")
                     tmp = self.fresh()
                     return [(tmp, f"Strand_reverse {ch[0]}.strand")], tmp, "Strand"
+                if ch and len(ch) == 2 and self.types.get(ch[0]) == "SI" and ch[1] == "has_overlap" \
+                        and self.spec.get("si_has_overlap_view"):
+                    # b.has_overlap(other, <False>, full_span=False), parent-less SingleIntervals
+                    kname = "SingleInterval_has_overlap_single_interval"
+                    if kname not in EMITTED:
+                        raise Unsupported(f"{kname} not generated before its caller")
+                    if len(n.args) != 2 or any(kw.arg != "full_span" or not isinstance(kw.value, ast.Constant)
+                                               or kw.value.value is not False for kw in n.keywords):
+                        raise Unsupported("has_overlap view: expected (other, match_strand, full_span=False)")
+                    (bo, co, to), (bm, cm, tm) = self.expr(n.args[0]), self.expr(n.args[1])
+                    if to != "SI" or bo or bm or cm != "False":
+                        raise Unsupported("has_overlap view: other must be a SingleInterval and match_strand statically False")
+                    tmp = self.fresh()
+                    return [(tmp, f"{kname} {lname(ch[0])} {co}")], tmp, "Bool"
+                if ch and len(ch) == 2 and self.types.get(ch[0]) == "CI" and ch[1] in CI_METHODS and not n.keywords:
+                    kname, atys, rty = CI_METHODS[ch[1]]
+                    if kname not in EMITTED:
+                        raise Unsupported(f"{kname} not generated before its caller")
+                    args = [self.expr(a) for a in n.args]
+                    if [a[2] for a in args] != atys:
+                        raise Unsupported(f"arguments of {ch[1]}: {[a[2] for a in args]}")
+                    tmp = self.fresh()
+                    binds = sum((a[0] for a in args), [])
+                    return binds + [(tmp, " ".join([kname, lname(ch[0])] + [a[1] for a in args]))], tmp, rty
                 if ch and len(ch) == 2 and self.types.get(ch[0]) == "SI":
                     meth = dict(SI_METHODS)
                     if self.spec.get("calls_has_overlap"):
@@ -648,6 +887,8 @@ class K:
 
     # -- statements
     def wrap(self, binds, body):
+        if binds and self.pure:
+            raise Unsupported("a kernel call after the guarded call of a try body (it could raise inside the try)")
         for name, code in reversed(binds):
             body = f"(match {code} with\n | .error e => .error e\n | .ok {name} =>\n {body})"
         return body
@@ -664,6 +905,8 @@ class K:
                 return f"(BinsResult.one {c})"
             if t == "RangeSet":
                 return f"(BinsResult.many {c})"
+        if r == "RelOut" and t == "SI":
+            return f"(RelOut.single {c})"
         if r == "Unit":
             return "(0 : Int)"
         if r == "Bool" and t == "Prop":
@@ -672,10 +915,297 @@ class K:
             return c
         raise Unsupported(f"return of {t} where {r} expected")
 
+    # -- loop fragment ---------------------------------------------------------------------------
+    def state_tuple(self, names):
+        if not names:
+            return "()"
+        if len(names) == 1:
+            return lname(names[0])
+        return "(" + ", ".join(lname(v) for v in names) + ")"
+
+    def loop_recurse(self):
+        c = self.ctx[-1]
+        return " ".join([c["name"]] + [lname(v) for v in c["frees"]] + ["rest_"] + [lname(v) for v in c["state"]])
+
+    def loop_done(self):
+        return f".ok (.done {self.state_tuple(self.ctx[-1]['state'])})"
+
+    def ok_return(self, value):
+        return f".ok (.ret {value})" if self.ctx else f".ok {value}"
+
+    def check_state_type(self, name, t):
+        for c in self.ctx:
+            if name in c["state"] and c["state_types"][c["state"].index(name)] != t:
+                raise Unsupported(f"loop state variable {name} changes its type to {t}")
+            if name in c["targets"]:
+                raise Unsupported(f"loop variable {name} is reassigned in the body")
+
+    @staticmethod
+    def assigned_names(stmts):
+        """names (re)bound by the statements, in order of first occurrence: assignment targets, receivers of .append"""
+        out = []
+
+        def add(nm):
+            if nm not in out:
+                out.append(nm)
+        for st in stmts:
+            for nd in ast.walk(st):
+                if isinstance(nd, ast.Name) and isinstance(nd.ctx, ast.Store):
+                    add(nd.id)
+                elif isinstance(nd, ast.Subscript) and isinstance(nd.ctx, ast.Store) and isinstance(nd.value, ast.Name):
+                    add(nd.value.id)
+                elif isinstance(nd, ast.Call) and isinstance(nd.func, ast.Attribute) and nd.func.attr in ("append", "extend") \
+                        and isinstance(nd.func.value, ast.Name):
+                    add(nd.func.value.id)
+        return out
+
+    def any_genexp(self, g):
+        if len(g.generators) != 1 or g.generators[0].ifs or g.generators[0].is_async:
+            raise Unsupported("any(): one `for` clause without conditions")
+        gen = g.generators[0]
+        bi, ci, ti = self.expr(gen.iter)
+        pat, targets = self.loop_target(gen.target, ti)
+        saved = dict(self.types)
+        for nm, _ in targets:
+            if nm in saved:
+                raise Unsupported(f"comprehension variable {nm} shadows a local")
+        self.types.update(targets)
+        try:
+            be, ce, te = self.expr(g.elt)
+        finally:
+            self.types = saved
+        if not be:
+            if te not in ("Prop", "Bool"):
+                raise Unsupported(f"any() over {te}")
+            body = f"decide {ce}" if te == "Prop" else ce
+            return bi, f"(List.any {ci} (fun {pat} => {body}))", "Bool"
+        if te != "Bool":
+            raise Unsupported(f"any() over an effectful element of type {te}")
+        inner = self.wrap(be, f".ok {ce}")
+        tmp = self.fresh()
+        return bi + [(tmp, f"pyAny (fun {pat} =>\n {inner}) {ci}")], tmp, "Bool"
+
+    def loop_target(self, target, iter_type):
+        if not iter_type.startswith("List:"):
+            raise Unsupported(f"iteration over {iter_type}")
+        elem = iter_type[5:]
+        if isinstance(target, ast.Name):
+            if lean_type(elem) is None:
+                raise Unsupported(f"loop element type {elem}")
+            return lname(target.id), [(target.id, elem)]
+        if isinstance(target, ast.Tuple) and elem.startswith("Pair:") and len(target.elts) == 2 \
+                and all(isinstance(e, ast.Name) for e in target.elts) and target.elts[0].id != target.elts[1].id:
+            ets = elem.split(":")[1:]
+            return "(" + ", ".join(lname(e.id) for e in target.elts) + ")", [(e.id, t) for e, t in zip(target.elts, ets)]
+        raise Unsupported("loop target")
+
+    def for_loop(self, s, rest):
+        if s.orelse:
+            raise Unsupported("for ... else")
+        if self.ctx:
+            raise Unsupported("nested loop")
+        if self.pure:
+            raise Unsupported("loop inside a try body")
+        bi, ci, ti = self.expr(s.iter)
+        pat, targets = self.loop_target(s.target, ti)
+        tnames = [nm for nm, _ in targets]
+        for nm in tnames:
+            if nm in self.types or nm in self.fixed:
+                raise Unsupported(f"loop variable {nm} shadows a local")
+        assigned = self.assigned_names(s.body)
+        state = [v for v in assigned if v in self.types]
+        used = {nd.id for st in s.body for nd in ast.walk(st) if isinstance(nd, ast.Name)}
+        frees = [v for v in self.types if v in used and v not in state]
+        for v in frees + state:
+            if lean_type(self.types[v]) is None:
+                raise Unsupported(f"local {v} of type {self.types[v]} is used inside a loop")
+        self.nloops += 1
+        name = f"{self.spec['name']}_loop{self.nloops}"
+        saved = dict(self.types)
+        stypes = [saved[v] for v in state]
+        self.types.update(targets)
+        self.ctx.append(dict(name=name, frees=frees, state=state, state_types=stypes, targets=tnames))
+        try:
+            body = self.block(list(s.body))
+        finally:
+            self.ctx.pop()
+            self.types = saved
+        ret = lean_type(self.ret) if self.ret != "Unit" else "Int"
+        sty = "Unit" if not state else " × ".join(lean_type(t) for t in stypes)
+        sig = "".join(f" ({lname(v)} : {lean_type(saved[v])})" for v in frees)
+        arrows = " → ".join([lean_type(ti)] + [lean_type(t) for t in stypes])
+        pats = "".join(", " + lname(v) for v in state)
+        self.aux.append(
+            f"/-- loop {self.nloops} of {self.spec['name']}: `for {ast.unparse(s.target)} in {ast.unparse(s.iter)}`; "
+            f"state = ({', '.join(state)}) -/\n"
+            f"def {name}{sig} : {arrows} → PyR (LoopOut ({ret}) ({sty}))\n"
+            f"  | []{pats} => .ok (.done {self.state_tuple(state)})\n"
+            f"  | {pat} :: rest_{pats} =>\n{indent(body, 4)}\n")
+        cont = self.block(rest)
+        call = " ".join([name] + [lname(v) for v in frees] + [ci] + [lname(v) for v in state])
+        return self.wrap(bi, f"(match {call} with\n | .error e => .error e\n | .ok (.ret r_) => .ok r_\n"
+                             f" | .ok (.done {self.state_tuple(state)}) =>\n {cont})")
+
+    def try_stmt(self, s, rest):
+        if s.orelse or s.finalbody or len(s.handlers) != 1:
+            raise Unsupported("try: exactly one except clause, no else/finally")
+        h = s.handlers[0]
+        if h.name or not isinstance(h.type, ast.Name) or h.type.id not in PYEXC:
+            raise Unsupported("except clause must name one known exception class without `as`")
+        if self.pure:
+            raise Unsupported("nested try")
+        if self.excsub is None:
+            raise Unsupported("exc.py not readable (exception hierarchy unknown)")
+        caught = [h.type.id] + sorted(x for x in self.excsub.get(h.type.id, ()) if x in PYEXC)
+        if not s.body:
+            raise Unsupported("empty try")
+        s1, srest = s.body[0], list(s.body[1:])
+        if isinstance(s1, ast.AugAssign) and isinstance(s1.target, ast.Name):
+            target, value = s1.target.id, ast.BinOp(left=ast.Name(id=s1.target.id, ctx=ast.Load()), op=s1.op, right=s1.value)
+        elif isinstance(s1, ast.Assign) and len(s1.targets) == 1 and isinstance(s1.targets[0], ast.Name):
+            target, value = s1.targets[0].id, s1.value
+        else:
+            raise Unsupported("try body must start with an assignment")
+        b, c, t = self.expr(value)
+        if len(b) != 1:
+            raise Unsupported("the first statement of a try body must contain exactly one kernel call")
+        tmp, call = b[0]
+        lt = lean_type(t)
+        if lt is None:
+            raise Unsupported(f"try: assignment of {t}")
+        self.check_state_type(target, t)
+        saved = dict(self.types)
+        self.types[target] = t
+        self.pure += 1
+        try:
+            okpath = f"let {lname(target)} : {lt} := {c}\n" + self.block(srest + [_EndTry()] + rest)
+        finally:
+            self.pure -= 1
+        self.types = dict(saved)
+        hpath = self.block(list(h.body) + rest)
+        self.types = saved
+        arms = "".join(f" | .error .{x} =>\n {hpath}\n" for x in caught)
+        return f"(match {call} with\n{arms} | .error e => .error e\n | .ok {tmp} =>\n {okpath})"
+
+    def join_if(self, s):
+        """`if c: a = e1; b = e2 else: a = f1; b = f2` -> [(a, t, code), (b, t, code)] or None when not of that shape"""
+        if not (self.loops and s.orelse):
+            return None
+        def plain(stmts):
+            out = []
+            for st in stmts:
+                if not (isinstance(st, ast.Assign) and len(st.targets) == 1 and isinstance(st.targets[0], ast.Name)):
+                    return None
+                out.append((st.targets[0].id, st.value))
+            return out
+        a, b_ = plain(s.body), plain(s.orelse)
+        if not a or not b_ or sorted(x for x, _ in a) != sorted(x for x, _ in b_) or len({x for x, _ in a}) != len(a):
+            return None
+        names = {x for x, _ in a}
+        mentioned = {nd.id for e in [s.test] + [v for _, v in a] + [v for _, v in b_] for nd in ast.walk(e)
+                     if isinstance(nd, ast.Name)}
+        if names & mentioned:
+            return None
+        bt, ct, tt = self.expr(s.test)
+        if bt or ct in ("True", "False"):
+            return None
+        other = dict(b_)
+        out = []
+        for nm, v in a:
+            (b1, c1, t1), (b2, c2, t2) = self.expr(v), self.expr(other[nm])
+            if t1 == "Prop":
+                c1, t1 = f"(decide {c1})", "Bool"
+            if t2 == "Prop":
+                c2, t2 = f"(decide {c2})", "Bool"
+            if b1 or b2 or t1 != t2 or lean_type(t1) is None:
+                return None
+            out.append((nm, t1, f"if {self.as_prop(ct, tt)} then {c1} else {c2}"))
+        return out
+
+    def lazy_attribute(self, s, rest):
+        """`if self.A is None: self.A = E` + `return self.A`  ->  E (see the module docstring), else None"""
+        if not (self.loops and isinstance(s, ast.If) and not s.orelse and len(s.body) == 1 and rest
+                and isinstance(rest[0], ast.Return) and self.cls is not None):
+            return None
+        t = s.test
+        if not (isinstance(t, ast.Compare) and len(t.ops) == 1 and isinstance(t.ops[0], ast.Is)
+                and isinstance(t.comparators[0], ast.Constant) and t.comparators[0].value is None):
+            return None
+        ch = attr_chain(t.left)
+        if not ch or len(ch) != 2 or ch[0] != "self":
+            return None
+        a = s.body[0]
+        if not (isinstance(a, ast.Assign) and len(a.targets) == 1 and attr_chain(a.targets[0]) == ch
+                and attr_chain(rest[0].value) == ch):
+            return None
+        for fn in self.cls.body:
+            if not isinstance(fn, ast.FunctionDef):
+                continue
+            for nd in ast.walk(fn):
+                if isinstance(nd, (ast.Assign, ast.AugAssign, ast.AnnAssign, ast.Delete)):
+                    tg = nd.targets if isinstance(nd, (ast.Assign, ast.Delete)) else [nd.target]
+                    for x in tg:
+                        for y in ast.walk(x):
+                            if isinstance(y, ast.Attribute) and y.attr == ch[1] and nd is not a:
+                                ok = fn.name == "__init__" and isinstance(nd, ast.Assign) \
+                                    and isinstance(nd.value, ast.Constant) and nd.value.value is None
+                                if not ok:
+                                    raise Unsupported(f"cached attribute {ch[1]} is also assigned in {fn.name}")
+        return a.value
+
     def block(self, stmts):
         if not stmts:
+            if self.ctx:
+                return self.loop_recurse()
+            if self.spec.get("generator"):
+                return ".ok yield_"
             raise Unsupported("control reaches the end of the function without return")
         s, rest = stmts[0], stmts[1:]
+        if isinstance(s, _EndTry):
+            self.pure -= 1
+            try:
+                return self.block(rest)
+            finally:
+                self.pure += 1
+        cut = self.spec.get("cut")
+        if cut and any(isinstance(nd, ast.Call) and isinstance(nd.func, ast.Attribute) and nd.func.attr == cut["before_call"]
+                       for nd in ast.walk(s)):
+            if self.ctx or self.pure:
+                raise Unsupported("cut inside a loop or try")
+            for nm, ty in cut["returns"]:
+                if self.types.get(nm) != ty:
+                    raise Unsupported(f"cut: local {nm} has type {self.types.get(nm)}, expected {ty}")
+            self.tail = [ast.unparse(x) for x in stmts]
+            return ".ok (" + " ".join([cut["ctor"]] + [lname(nm) for nm, _ in cut["returns"]]) + ")"
+        lazy = self.lazy_attribute(s, rest)
+        if lazy is not None:
+            return self.block([ast.Return(value=lazy)])
+        if isinstance(s, ast.Continue):
+            if not self.ctx:
+                raise Unsupported("continue outside a loop")
+            return self.loop_recurse()
+        if isinstance(s, ast.Break):
+            if not self.ctx:
+                raise Unsupported("break outside a loop")
+            return self.loop_done()
+        if isinstance(s, ast.Try) and self.loops:
+            return self.try_stmt(s, rest)
+        if isinstance(s, ast.Expr) and isinstance(s.value, ast.YieldFrom) and self.spec.get("generator"):
+            if self.ctx or self.pure:
+                raise Unsupported("yield from inside a loop or try")
+            b, c, t = self.expr(s.value.value)
+            if t != self.ret:
+                raise Unsupported(f"yield from {t} in a generator of {self.ret}")
+            return self.wrap(b, f"let yield_ : {lean_type(t)} := yield_ ++ {c}\n" + self.block(rest))
+        if isinstance(s, ast.Expr) and isinstance(s.value, ast.Call) and self.loops:
+            ch = attr_chain(s.value.func)
+            if ch and len(ch) == 2 and ch[1] == "append" and self.types.get(ch[0], "").startswith("List:") \
+                    and len(s.value.args) == 1 and not s.value.keywords:
+                lt = self.types[ch[0]]
+                b, c, t = self.expr(s.value.args[0])
+                if t != lt[5:]:
+                    raise Unsupported(f"append of {t} to {lt}")
+                return self.wrap(b, f"let {lname(ch[0])} : {lean_type(lt)} := {lname(ch[0])} ++ [{c}]\n" + self.block(rest))
         if isinstance(s, ast.Expr):
             if isinstance(s.value, ast.Constant):   # docstring
                 return self.block(rest)
@@ -687,7 +1217,7 @@ class K:
                 if ch and ch[0] == "ObjectValidation" and ch[1] == "require_parents_equal_except_location" \
                         and self.spec.get("skip_parent_check"):
                     return self.block(rest)   # parent bookkeeping: not part of the integer kernel
-                if ch and len(ch) == 3 and self.types.get(ch[0]) == "SI" and ch[1:] == ["strand", "assert_directional"]:
+                if ch and len(ch) == 3 and self.types.get(ch[0]) in ("SI", "CI") and ch[1:] == ["strand", "assert_directional"]:
                     if "Strand_assert_directional" not in EMITTED:
                         raise Unsupported("Strand_assert_directional not generated")
                     tmp = self.fresh()
@@ -707,8 +1237,10 @@ class K:
             if s.value is None:
                 raise Unsupported("bare return")
             b, c, t = self.expr(s.value)
-            return self.wrap(b, f".ok {self.ret_value(c, t)}")
+            return self.wrap(b, self.ok_return(self.ret_value(c, t)))
         if isinstance(s, ast.Raise):
+            if self.pure:
+                raise Unsupported("raise after the guarded call of a try body")
             exc = s.exc
             name = exc.func.id if isinstance(exc, ast.Call) and isinstance(exc.func, ast.Name) else \
                 (exc.id if isinstance(exc, ast.Name) else None)
@@ -747,15 +1279,36 @@ class K:
                     raise Unsupported("set literal")
                 self.types[target.id] = "RangeSet"
                 return f"let {target.id} : RangeSet := [" + ", ".join(f"({v}, {v})" for v in vals) + "]\n" + self.block(rest)
+            if self.loops and isinstance(value, ast.List) and not value.elts:
+                t = self.spec.get("locals", {}).get(target.id)
+                if not t or not t.startswith("List:"):
+                    raise Unsupported(f"empty list {target.id}: element type not declared in the kernel spec")
+                self.check_state_type(target.id, t)
+                self.types[target.id] = t
+                return f"let {lname(target.id)} : {lean_type(t)} := []\n" + self.block(rest)
             b, c, t = self.expr(value)
+            if self.loops:
+                self.check_state_type(target.id, t)
+                if t == "Prop":
+                    c, t = f"(decide {c})", "Bool"
             self.types[target.id] = t
-            lt = LEAN_TYPE.get(t)
+            lt = lean_type(t) if self.loops else LEAN_TYPE.get(t)
             ann = f" : {lt}" if lt else ""
-            return self.wrap(b, f"let {target.id}{ann} := {c}\n" + self.block(rest))
+            return self.wrap(b, f"let {lname(target.id)}{ann} := {c}\n" + self.block(rest))
         if isinstance(s, ast.If):
             b, c, t = self.expr(s.test)
             if c == "True" and not b:
                 return self.block(s.body + rest)     # statically true (type test of a typed argument)
+            if c == "False" and not b:
+                return self.block(s.orelse + rest)   # statically false (parameter pinned to its default)
+            joined = self.join_if(s)
+            if joined is not None:
+                out = ""
+                for nm, jt, code in joined:
+                    self.check_state_type(nm, jt)
+                    self.types[nm] = jt
+                    out += f"let {lname(nm)} : {lean_type(jt)} := {code}\n"
+                return out + self.block(rest)
             saved = dict(self.types)
             then = self.block(s.body + rest)
             self.types = dict(saved)
@@ -763,6 +1316,8 @@ class K:
             self.types = saved
             return self.wrap(b, f"if {self.as_prop(c, t)} then\n {then}\nelse\n {els}")
         if isinstance(s, ast.For):
+            if self.loops and not (isinstance(s.iter, ast.Name) and isinstance(self.consts.get(s.iter.id), list)):
+                return self.for_loop(s, rest)
             if not (isinstance(s.iter, ast.Name) and isinstance(self.consts.get(s.iter.id), list)
                     and isinstance(s.target, ast.Name) and not s.orelse):
                 raise Unsupported("for loop must run over a module-level list literal")
@@ -841,6 +1396,27 @@ KERNELS = [
     dict(name="VariantInterval_lift_over_chromosome_location_single_interval", file="gene/variants.py", cls="VariantInterval",
          fn="_lift_over_chromosome_location_single_interval", args=[("self", "VI"), ("location", "SI")], ret="OptSI",
          inline={"length_difference": "(VariantInterval_length_difference_val self)"}),
+    # ---- loops over the blocks of a CompoundInterval (parent-less view `CI`, see the module docstring) ----
+    dict(name="CompoundInterval_scan_blocks", file="location/location_impl.py", cls="CompoundInterval", fn="scan_blocks",
+         args=[("self", "CI")], ret="List:SI", loops=True, generator=True),
+    dict(name="CompoundInterval_parent_to_relative_pos", file="location/location_impl.py", cls="CompoundInterval",
+         fn="parent_to_relative_pos", args=[("self", "CI"), ("parent_pos", "Int")], ret="Int", loops=True),
+    dict(name="CompoundInterval_relative_to_parent_pos", file="location/location_impl.py", cls="CompoundInterval",
+         fn="relative_to_parent_pos", args=[("self", "CI"), ("relative_pos", "Int")], ret="Int", loops=True),
+    # CUT: stops before `CompoundInterval._from_single_intervals_no_validation(new_blocks).optimize_blocks()` and
+    # returns `RelOut.blocks new_blocks new_strand` (zero-length requests return `RelOut.single <interval>`)
+    dict(name="CompoundInterval_relative_interval_to_parent_location", file="location/location_impl.py",
+         cls="CompoundInterval", fn="relative_interval_to_parent_location",
+         args=[("self", "CI"), ("relative_start", "Int"), ("relative_end", "Int"), ("relative_strand", "Strand")],
+         ret="RelOut", loops=True, locals={"new_blocks": "List:SI"},
+         cut=dict(before_call="_from_single_intervals_no_validation", ctor="RelOut.blocks",
+                  returns=[("new_blocks", "List:SI"), ("new_strand", "Strand")])),
+    dict(name="CompoundInterval_is_overlapping", file="location/location_impl.py", cls="CompoundInterval",
+         fn="is_overlapping", args=[("self", "CI")], ret="Bool", loops=True),
+    # view: other is a parent-less SingleInterval, match_strand / full_span / strict_parent_compare at their defaults
+    dict(name="CompoundInterval_has_overlap", file="location/location_impl.py", cls="CompoundInterval", fn="has_overlap",
+         args=[("self", "CI"), ("other", "SI")], ret="Bool", loops=True, si_has_overlap_view=True,
+         fixed={"match_strand": False, "full_span": False, "strict_parent_compare": False}),
 ]
 
 
@@ -884,21 +1460,54 @@ def gen_kernels(repo, errors):
         errors.append(f"DistanceType: {e}")
     names = []
     EMITTED.clear()
+    ci_bad = ci_view_guards(repo)
+    excsub = exc_subclasses(repo)
     for spec in KERNELS:
         try:
             mod = module_of(repo, spec["file"])
             container = find_class(mod, spec["cls"]) if spec["cls"] else mod
             fn = find_func(container, spec["fn"])
-            k = K(spec, module_consts(mod))
+            if any(t == "CI" for _, t in spec["args"]) and ci_bad:
+                raise Unsupported("the CI view is not faithful to this source: " + "; ".join(ci_bad[:3]))
+            k = K(spec, module_consts(mod), cls=container if spec["cls"] else None, excsub=excsub)
             params = [a.arg for a in fn.args.args]
             want = [a for a, _ in spec["args"]]
             if params[:len(want)] != want:
                 raise Unsupported(f"parameters {params} != {want}")
             # defaults for parameters beyond the modelled ones are not supported
-            body = k.block(fn.body) if spec["ret"] != "Unit" else k.block(fn.body + [ast.Return(value=ast.Constant(value=0))])
-            ret = LEAN_TYPE.get(spec["ret"], "Int") if spec["ret"] != "Unit" else "Int"
-            args = " ".join(f"({a} : {LEAN_TYPE[t]})" for a, t in spec["args"])
-            out.append(f"/-- {spec['file']}: {(spec['cls'] + '.') if spec['cls'] else ''}{spec['fn']} -/")
+            if spec.get("fixed"):
+                # trailing parameters pinned to their default values: must be exactly the remaining parameters
+                extra = params[len(want):]
+                defaults = fn.args.defaults
+                dmap = {}
+                for a, d in zip(reversed(fn.args.args), reversed(defaults)):
+                    dmap[a.arg] = d.value if isinstance(d, ast.Constant) else Unsupported
+                if sorted(extra) != sorted(spec["fixed"]) or fn.args.kwonlyargs or fn.args.vararg or fn.args.kwarg:
+                    raise Unsupported(f"parameters beyond the modelled ones {extra} != pinned {sorted(spec['fixed'])}")
+                for nm, v in spec["fixed"].items():
+                    if dmap.get(nm, Unsupported) is not v:
+                        raise Unsupported(f"parameter {nm} is pinned to {v} but its default is {dmap.get(nm)!r}")
+            stmts = list(fn.body)
+            if spec.get("loops"):
+                stmts = body_no_doc(fn)
+            body = k.block(stmts) if spec["ret"] != "Unit" else k.block(fn.body + [ast.Return(value=ast.Constant(value=0))])
+            if spec.get("generator"):
+                body = f"let yield_ : {lean_type(spec['ret'])} := []\n" + body
+            if spec.get("cut") and k.tail is None:
+                raise Unsupported(f"cut point (a call of {spec['cut']['before_call']}) not found")
+            ret = (lean_type(spec["ret"]) or "Int") if spec["ret"] != "Unit" else "Int"
+            args = " ".join(f"({a} : {lean_type(t)})" for a, t in spec["args"])
+            out.extend(k.aux)
+            doc = f"{spec['file']}: {(spec['cls'] + '.') if spec['cls'] else ''}{spec['fn']}"
+            if k.tail is not None:
+                out.append(f"/-- the statements of {spec['fn']} after the cut (not translated; pinned as text) -/")
+                out.append(f"def {spec['name']}_tail : List (List Char) :=\n  ["
+                           + ",\n   ".join(lean_chars(x) for x in k.tail) + "]\n")
+                doc += (f" — CUT before the call of {spec['cut']['before_call']}: returns {spec['cut']['ctor']} "
+                        + " ".join(nm for nm, _ in spec["cut"]["returns"]))
+            if spec.get("fixed"):
+                doc += " — view with " + ", ".join(f"{a}={v}" for a, v in spec["fixed"].items()) + " (the defaults)"
+            out.append(f"/-- {doc} -/")
             out.append(f"def {spec['name']} {args} : PyR ({ret}) :=\n{indent(body)}\n")
             if spec["name"] == "VariantInterval_length_difference":
                 out.append("/-- value of the `length_difference` property (it cannot raise) -/")
